@@ -102,7 +102,7 @@ def loop_rules(ctx, rep, impl):
         sbb, targets, otherwise, _o = sw
         some_t = targets.get(1)
         some_edges[mbb] = (sbb, some_t)
-        mine = [(wbb, wt) for wbb, wt in W if any(c[4] == mbb for c in origin_calls(b.origin(wt["args"][1])))]
+        mine = [(wbb, wt) for wbb, wt in W if any(c[4] == mbb for c in b.may_calls(b.origin(wt["args"][1])))]
         rep.check("R7.2", "%s:reply-site:%d" % (impl, n), len(mine) == 1, "expected exactly one write of this maybe_pong's reply (found %d)" % len(mine), b.loc(mt["line"]), nontrivial=False)
         if len(mine) != 1 or some_t is None:
             continue
@@ -120,6 +120,11 @@ def loop_rules(ctx, rep, impl):
         self_ok = a0 == ("arg", 1) or (a0[0] == "field" and strip_refs(a0[1]) == ("arg", 1) and a0[2] == 0)
         x = a1[1] if a1[0] == "field" else a1
         src = x[1] if x[0] == "downcast" and x[3] == "Some" else None
+        if src is not None and src[0] != "call":
+            # the Option travelled through a helper's `Ok(..)` and a `?`: what it can stand for under those projections
+            alts = [strip_refs(y) for y in b.alternatives(src)]
+            if alts and all(y == alts[0] for y in alts):
+                src = alts[0]
         pay_ok = src is not None and src[0] == "call" and src[4] in some_edges
         rep.check("R7.2", "%s:reply-is-pong:%d" % (impl, n), self_ok and pay_ok,
                   "the only thing read() may write is the value maybe_pong returned (receiver %s, argument %s)" % (a0, fmt_origin(a1)), b.loc(wt["line"]),
@@ -160,8 +165,16 @@ def loop_rules(ctx, rep, impl):
                 if not any(c[4][0] == "discr" and c[2] == "eq" and tuple(c[3]) == (1,) and of_write(c[4][1]) for c in conds):
                     continue
                 nerr += 1
-                if not (ret[1] == "Err" or (ret[1].startswith("call:") and "from_residual" in ret[1]) or ret[1] == "diverge"):
-                    bad.append(ret[1])
+                kind = ret[1]
+                if kind == "use" and len(ret) > 3 and ret[3]:
+                    # `return helper(..)`: what the helper returned on this path
+                    x = simplify(ret[3][0])
+                    if x[0] == "call" and (x[1] or "").endswith("FromResidual::from_residual"):
+                        kind = "Err"
+                    elif x[0] == "agg" and x[1][0] == "adt" and x[1][1] == "core::result::Result":
+                        kind = x[1][3]
+                if not (kind == "Err" or (kind.startswith("call:") and "from_residual" in kind) or kind == "diverge"):
+                    bad.append(kind)
             rep.check("R7.2", "%s:reply-failure-returned:%d" % (impl, n), nerr >= 1 and not bad,
                       "a failed reply write must end read() with that error; %d failure path(s) found, of which some end in %s (the keep-alive is handed over although no reply was written)"
                       % (nerr, sorted(set(bad))), b.loc(wt["line"]), sample={"impl": impl, "failure_paths": nerr})
